@@ -94,6 +94,11 @@ CHECKS = {
         note="Modifying a filter builder while a query built from it is still open is not generated (queries are exhausted before the builder is touched again, except the two-open-queries step).",
         technique="differential property-based testing (rapid): generic API vs. documented ID-based equivalent on lock-step worlds; generated adapters for all arities",
         ref="DESIGN.md section 5, C18"),
+    "C19": dict(
+        text="Groups of 2-6 worlds with different universes (same type pools, different registration orders) and generated histories. Each history is run alone to get a reference trace; then all are interleaved step by step in one goroutine (after every step the hidden-state digest and observables of all other worlds must be unchanged) and run concurrently, one goroutine per world, in a race-detector build: no race report, no runtime fatal error, every trace equal to the reference.",
+        note="Goroutine schedules are sampled; the race detector compensates because it flags unsynchronised accesses that executed, independent of the exact interleaving. A race report or runtime fatal error cannot be shrunk: the replay file holds the group's histories and is re-run 20 times.",
+        technique="property-based testing (rapid) with a differential oracle (alone vs. interleaved vs. concurrent) under the Go race detector",
+        ref="DESIGN.md section 5, C19"),
     "C20": dict(
         text="Generated Add/Remove/Get/Has sequences over 4 static resource types through all three access styles and up to the limit of dynamic ones, interleaved with component registrations, entity operations, world locks and Reset, with illegal Add-present/Remove-absent injected; after every operation every registered resource is read through every accessor and compared with a map model (exact pointer identity, nil when absent, dense independent IDs).",
         note="Resource type registration under lock is not asserted to panic (DESIGN 4.14).",
